@@ -135,7 +135,50 @@ def main():
                 h.violation("galactic", f"Galactic sampler on {ny}x{nx} differs from the sky sampler applied to the rotated coordinates at {int((g != s).sum())} of 50 points", input=[ny, nx])
     except Exception as e:
         h.violation("galactic:crash", f"Galactic sampler raised {type(e).__name__}: {e}", input="galactic")
-    h.assumptions.append("plate_carree_ecliptic_sampler is outside the layouts the property defines (it shifts by half a turn: `lon % 2pi - pi`) and is pinned by a reference image in the suite; not checked")
+    # Ecliptic: same indexing as the zero-right sky sampler applied to astropy's own ecliptic (lon, lat) — theorem
+    # `ecliptic_eq_zeroright` for the extracted index arithmetic; periodic in the ICRS longitude; shape = request + colour axes
+    try:
+        from astropy.coordinates import BarycentricTrueEcliptic, ICRS
+        import astropy.units as u_
+        for (ny, nx) in [(5, 3), (180, 360), (7, 101), (1, 1), (2, 5)]:
+            data = np.arange(ny * nx).reshape(ny, nx)
+            lon = np.array([[rng.uniform(0, TWOPI) for _ in range(50)]])
+            lat = np.array([[rng.uniform(-1.5, 1.5) for _ in range(50)]])
+            with warnings.catch_warnings():
+                warnings.simplefilter("ignore")
+                g = S.plate_carree_ecliptic_sampler(data)(lon, lat)
+                g2 = S.plate_carree_ecliptic_sampler(data)(lon + TWOPI, lat)
+                ecl = ICRS(lon * u_.rad, lat * u_.rad).transform_to(BarycentricTrueEcliptic())
+                s = S.plate_carree_zeroright_sampler(data)(ecl.lon.rad, ecl.lat.rad)
+            h.case(("ecliptic", ny, nx))
+            if not np.array_equal(g, s):
+                h.violation("ecliptic", f"ecliptic sampler on {ny}x{nx} differs from the zero-right sampler applied to the rotated coordinates at {int((g != s).sum())} of 50 points", input=[ny, nx])
+            elif (g != g2).mean() > 0.1:
+                h.violation("ecliptic:period", f"ecliptic sampler on {ny}x{nx} is not periodic in longitude ({int((g != g2).sum())} of 50 points differ after one turn)", input=[ny, nx])
+            if g.shape != lon.shape or g.min() < 0 or g.max() >= ny * nx:
+                h.violation("ecliptic:shape", f"ecliptic sampler on {ny}x{nx}: result shape {g.shape} for request {lon.shape}", input=[ny, nx])
+        for name, mk in (("galactic", S.plate_carree_galactic_sampler), ("ecliptic", S.plate_carree_ecliptic_sampler)):
+            lon = np.array([[0.3, 1.1, 5.0], [2.2, 3.3, 4.4]])
+            lat = np.array([[0.1, -0.2, 1.0], [-1.0, 0.5, 0.0]])
+            with warnings.catch_warnings():
+                warnings.simplefilter("ignore")
+                out = mk(rgb)(lon, lat)
+                scal = mk(np.arange(72).reshape(6, 12))(lon, lat)
+            h.case(("rgb", name))
+            if out.shape != (2, 3, 3) or not (np.array_equal(out[..., 0], scal // 12) and np.array_equal(out[..., 1], scal % 12)):
+                h.violation(f"shape:{name}:rgb", f"{name}: RGB map sampled on a (2,3) request gives shape {out.shape} or indexes differently from a scalar map", input=name)
+        # the extracted ecliptic index arithmetic against the model on exact points (no rotation involved: the inner
+        # arithmetic is what the theorem is about); the python side evaluates the zero-right sampler, equal by the check above
+        for (ny, nx) in [(4, 8), (3, 7), (1, 1)]:
+            data = np.arange(ny * nx).reshape(ny, nx)
+            for _ in range(20):
+                uu = F(rng.randrange(-3000, 3000), 1000) + F(1, 7919)
+                vv = F(rng.randrange(-249, 250), 1000) + F(1, 7919)
+                r = S.plate_carree_zeroright_sampler(data)(np.array([[float(uu) * TWOPI]]), np.array([[float(vv) * TWOPI]]))
+                lines.append(f"sampler ecliptic {nx} {ny} {frs(uu)} {frs(vv)}")
+                py.append(f"{int(r[0, 0]) // nx} {int(r[0, 0]) % nx}")
+    except Exception as e:
+        h.violation("ecliptic:crash", f"ecliptic sampler raised {type(e).__name__}: {e}", input="ecliptic")
     try:
         out = lean_driver(lines)
         diff_streams(h, "index-vs-model", lines, py, out)
